@@ -4,3 +4,14 @@ pub mod dag;
 pub mod enum_checkers;
 pub mod enum_files;
 pub mod enum_map;
+pub mod prog;
+pub mod world;
+pub mod tracker;
+pub mod dump;
+pub mod m1;
+pub mod runner;
+pub mod enumerate;
+pub mod analyze;
+pub mod hist;
+pub mod checks;
+pub mod c17;
